@@ -104,7 +104,7 @@
    abstract in this tree (its init takes a non-const objective and does not override the pure virtual init): no
    object exists to check. *)
 From Coq Require Import List QArith Qreduction Qabs Bool Arith.
-From SharkV Require Import C10Model C10Proofs C10LsModel C10LsProofs C10BfgsProofs.
+From SharkV Require Import C10Model C10Proofs C10LsModel C10LsProofs C10BfgsProofs C10Gen C10LbfgsModel C10LbfgsProofs C10LbfgsBoxProofs C10AdamRprop C10AdamRpropProofs.
 Import ListNotations.
 Open Scope Q_scope.
 
@@ -390,6 +390,232 @@ Theorem C10_bfgs_saverestore_continues :
 Proof. exact bfgs_saverestore_continues. Qed.
 Print Assumptions C10_bfgs_saverestore_continues.
 
+(* ====================================================================================================
+   L-BFGS (LBFGS.cpp; model C10Gen.v instantiated with rationals in C10LbfgsModel.v, proofs C10LbfgsProofs.v) *)
+
+(* updateHist as coded: nothing changes unless y's > m_updThres ... *)
+Theorem C10_lbfgs_history_skip_rule :
+  forall (m : lb_model) (y s : vec), dot y s <= lb_thres m -> lb_update_hist m y s = m.
+Proof. exact update_hist_skips. Qed.
+Print Assumptions C10_lbfgs_history_skip_rule.
+
+(* ... otherwise the pair is appended, the OLDEST pair is dropped iff the history already holds m_numHist pairs, and
+   m_bdiag = y'y / y's *)
+Theorem C10_lbfgs_history_store_rule :
+  forall (m : lb_model) (y s : vec), lb_thres m < dot y s ->
+    lb_hist (lb_update_hist m y s) = lb_hist m /\ lb_thres (lb_update_hist m y s) = lb_thres m /\
+    lb_bdiag (lb_update_hist m y s) == dot y y / dot y s /\
+    lb_pairs (lb_update_hist m y s) =
+      (if Nat.leb (lb_hist m) (length (lb_pairs m)) then tl (lb_pairs m) else lb_pairs m) ++ [(s, y)].
+Proof. exact update_hist_stores. Qed.
+Print Assumptions C10_lbfgs_history_store_rule.
+
+(* THE TWO-LOOP RECURSION (multBInv, the two loops over the arrays as coded) applies the matrix lb_H = the BFGS inverse
+   updates (bfgs_update, the function of the BFGS theorems) of the stored pairs, oldest first, starting from (1/bdiag) I:
+   for every test vector z, z'(multBInv x) = z' H x, ... *)
+Theorem C10_lbfgs_two_loop_is_matrix :
+  forall (n : nat) (bdiag : Q) (ps : list (vec * vec)),
+    0 < bdiag -> Forall (fun p => length (fst p) = n /\ length (snd p) = n /\ 0 < dot (snd p) (fst p)) ps ->
+    forall x z, length x = n -> length z = n ->
+    dot z (lb_mult_binv bdiag ps x) == bil (lb_H n bdiag ps) z x.
+Proof. exact two_loop_is_H. Qed.
+Print Assumptions C10_lbfgs_two_loop_is_matrix.
+
+(* ... i.e. entry by entry multBInv x = H x *)
+Theorem C10_lbfgs_two_loop_entries :
+  forall (n : nat) (bdiag : Q) (ps : list (vec * vec)),
+    0 < bdiag -> Forall (fun p => length (fst p) = n /\ length (snd p) = n /\ 0 < dot (snd p) (fst p)) ps ->
+    forall x i, length x = n -> (i < n)%nat ->
+    nth i (lb_mult_binv bdiag ps x) 0 == nth i (mv (lb_H n bdiag ps) x) 0.
+Proof. exact two_loop_entries. Qed.
+Print Assumptions C10_lbfgs_two_loop_entries.
+
+(* H is symmetric positive definite whenever bdiag > 0 and every stored pair has y's > 0 *)
+Theorem C10_lbfgs_matrix_spd :
+  forall (n : nat) (bdiag : Q) (ps : list (vec * vec)),
+    0 < bdiag -> Forall (fun p => length (fst p) = n /\ length (snd p) = n /\ 0 < dot (snd p) (fst p)) ps ->
+    length (lb_H n bdiag ps) = n /\ rows n (lb_H n bdiag ps) /\ symm n (lb_H n bdiag ps) /\ posdef n (lb_H n bdiag ps).
+Proof. intros n b ps Hb F. destruct (lb_H_ok n b ps Hb F) as [A B C D]. auto. Qed.
+Print Assumptions C10_lbfgs_matrix_spd.
+
+(* after init and after every step of (unconstrained) L-BFGS, every line-search type, every oracle, every m_numHist:
+   m_bdiag > 0, EVERY STORED PAIR HAS y's > 1e-10 > 0 (the code cannot store a pair with y's <= 0 in exact arithmetic), the
+   history holds at most m_numHist pairs (the bound that keeps the arrays rho / alpha of multBInv in range), the matrix
+   is symmetric positive definite, g'd <= 0 and g'd < 0 whenever g is not the zero vector *)
+Theorem C10_lbfgs_direction_descent :
+  forall (f : vec -> Q) (grad : vec -> vec) (feasible : vec -> bool) (n numhist : nat),
+    (forall x, length x = n -> length (grad x) = n) ->
+    forall (constrained : bool) (lstype : nat) (x0 : vec) (orcs : nat -> ls_oracle) (k : nat) (s : ls_state lb_model),
+    length x0 = n ->
+    ls_run_o f grad lb_model lbfgs_dir orcs 0 k (ls_init_o f grad feasible lb_model (lb_init_model numhist) constrained lstype x0) = Some s ->
+    let m := extra s in
+    0 < lb_bdiag m /\ Forall (fun p => lb_upd_thres < dot (snd p) (fst p)) (lb_pairs m) /\
+    ((1 <= numhist)%nat -> (length (lb_pairs m) <= numhist)%nat) /\
+    symm n (lb_H n (lb_bdiag m) (lb_pairs m)) /\ posdef n (lb_H n (lb_bdiag m) (lb_pairs m)) /\
+    dot (der s) (sdir s) <= 0 /\ (~ vzero (der s) -> dot (der s) (sdir s) < 0).
+Proof. exact lbfgs_direction_descent. Qed.
+Print Assumptions C10_lbfgs_direction_descent.
+
+(* ... hence C10_linesearch_monotone_all_types_partial without its hypothesis, for L-BFGS *)
+Theorem C10_lbfgs_monotone :
+  forall (f : vec -> Q) (grad : vec -> vec) (feasible : vec -> bool) (n numhist : nat),
+    (forall x, length x = n -> length (grad x) = n) ->
+    forall (constrained : bool) (lstype : nat) (x0 : vec) (orcs : nat -> ls_oracle) (k : nat) (o : ls_oracle) (s s' : ls_state lb_model),
+    length x0 = n ->
+    ls_run_o f grad lb_model lbfgs_dir orcs 0 k (ls_init_o f grad feasible lb_model (lb_init_model numhist) constrained lstype x0) = Some s ->
+    ls_step_o f grad lb_model lbfgs_dir o s = Some s' ->
+    val s' <= val s /\ f (pt s') <= f (pt s).
+Proof. exact lbfgs_monotone. Qed.
+Print Assumptions C10_lbfgs_monotone.
+
+(* save / restore.  LBFGS::write archives the base members + m_numHist, m_bdiag, m_steps, m_gradientDifferences; m_updThres
+   is NOT archived.  The list is complete for every instance that is read into whose m_updThres equals the saved one, for
+   both direction rules (dir arbitrary) ... *)
+Theorem C10_lbfgs_saverestore_continues :
+  forall (f : vec -> Q) (grad : vec -> vec) (dir : ls_state lb_model -> lb_model * vec) (fresh s s' : ls_state lb_model),
+    lb_thres (extra fresh) = lb_thres (extra s) ->
+    ls_restore lb_model (lb_restore_extra (lb_thres (extra fresh))) fresh (ls_save lb_model lb_save_extra s) = Some s' ->
+    s' = s /\ forall orcs k n, ls_run_o f grad lb_model dir orcs k n s' = ls_run_o f grad lb_model dir orcs k n s.
+Proof. exact lbfgs_saverestore_continues. Qed.
+Print Assumptions C10_lbfgs_saverestore_continues.
+
+(* ... and initModel sets m_updThres to the constant 1e-10: every instance that was init-ed and stepped qualifies *)
+Theorem C10_lbfgs_threshold_constant :
+  forall (f : vec -> Q) (grad : vec -> vec) (feasible : vec -> bool) (numhist : nat) (dir : ls_state lb_model -> lb_model * vec),
+    (forall s1, fst (dir s1) = lbfgs_hist s1) ->
+    forall (constrained : bool) (lstype : nat) (x0 : vec) (orcs : nat -> ls_oracle) (k : nat) (s : ls_state lb_model),
+    ls_run_o f grad lb_model dir orcs 0 k (ls_init_o f grad feasible lb_model (lb_init_model numhist) constrained lstype x0) = Some s ->
+    lb_thres (extra s) = lb_upd_thres.
+Proof. exact lbfgs_threshold_constant. Qed.
+Print Assumptions C10_lbfgs_threshold_constant.
+
+(* ---------------- L-BFGS with box constraints (C10LbfgsBoxProofs.v) ---------------- *)
+(* getBoxConstrainedDirection as coded (after the repairs e082c2d6 / 42faa67e): for EVERY history of the right dimension
+   with y's > 0 (what updateHist stores), every m_bdiag, all bounds, every point inside the box widened by the slack 1e-13
+   of BoxConstraintHandler::isFeasible (the test the code uses) and every gradient, x + d is inside the widened box again -
+   in the full-step, the Cauchy and the dog-leg branch *)
+Theorem C10_lbfgs_box_direction_feasible :
+  forall (n : nat) (bdiag : Q) (ps : list (vec * vec)) (l u x g : vec),
+    Forall (fun p => length (fst p) = n /\ length (snd p) = n /\ 0 < dot (snd p) (fst p)) ps ->
+    length x = n -> length g = n ->
+    box_feasb_slack box_eps l u x = true ->
+    box_feasb_slack box_eps l u (vadd x (vscale 1 (lb_box_dir bdiag ps l u x g))) = true.
+Proof. exact lb_box_dir_feasible. Qed.
+Print Assumptions C10_lbfgs_box_direction_feasible.
+
+(* hence every iterate of box-constrained L-BFGS is feasible, every objective, every m_numHist, every feasible start:
+   C10_box_feasible_slack_partial without its hypothesis on the direction rule *)
+Theorem C10_lbfgs_box_feasible :
+  forall (f : vec -> Q) (grad : vec -> vec) (l u : vec) (n numhist : nat),
+    (forall x, length x = n -> length (grad x) = n) ->
+    forall (lstype : nat) (x0 : vec) (k : nat),
+    length x0 = n -> box_feasb_slack box_eps l u x0 = true ->
+    box_feasb_slack box_eps l u
+      (pt (ls_run f grad lb_model (lbfgs_dir_box l u) k
+             (ls_init f grad (box_feasb_slack box_eps l u) lb_model (lb_init_model numhist) lstype x0))) = true.
+Proof. exact lbfgs_box_feasible. Qed.
+Print Assumptions C10_lbfgs_box_feasible.
+
+(* the SHARK_RUNTIME_CHECK(isFeasible(point + direction), "internal error") of computeSearchDirection holds after every
+   step (exact arithmetic) *)
+Theorem C10_lbfgs_box_internal_check_holds :
+  forall (f : vec -> Q) (grad : vec -> vec) (l u : vec) (n numhist : nat),
+    (forall x, length x = n -> length (grad x) = n) ->
+    forall (lstype : nat) (x0 : vec) (k : nat),
+    length x0 = n -> box_feasb_slack box_eps l u x0 = true ->
+    let s := ls_run f grad lb_model (lbfgs_dir_box l u) (S k)
+               (ls_init f grad (box_feasb_slack box_eps l u) lb_model (lb_init_model numhist) lstype x0) in
+    box_feasb_slack box_eps l u (vadd (pt s) (vscale 1 (sdir s))) = true.
+Proof. exact lbfgs_box_internal_check_holds. Qed.
+Print Assumptions C10_lbfgs_box_internal_check_holds.
+
+(* ====================================================================================================
+   Adam (Adam.h) and Rprop (Rprop.h / Rprop.cpp): models C10AdamRprop.v (generic, rational instance), proofs
+   C10AdamRpropProofs.v.  [sq] stands for std::sqrt (arbitrary function); std::pow is the exact power. *)
+
+(* solution().value is the objective at solution().point, the stored derivative is the gradient there, m_counter counts the
+   steps and the four parameters are left alone: after init and after every step *)
+Theorem C10_adam_state_consistent :
+  forall (f : vec -> Q) (grad : vec -> vec) (sq : Q -> Q) (b1 b2 e eta : Q) (x0 : vec) (n : nat),
+    let s := adam_run f grad sq n (adam_init f grad sq b1 b2 e eta x0) in
+    ad_val s = f (ad_pt s) /\ ad_der s = grad (ad_pt s) /\ ad_cnt s = n /\
+    ad_b1 s = b1 /\ ad_b2 s = b2 /\ ad_eps s = e /\ ad_eta s = eta.
+Proof. exact adam_state_consistent. Qed.
+Print Assumptions C10_adam_state_consistent.
+
+(* the argument of std::sqrt is never negative (0 <= beta2 <= 1) *)
+Theorem C10_adam_second_moment_nonneg :
+  forall (f : vec -> Q) (grad : vec -> vec) (sq : Q -> Q) (b1 b2 e eta : Q) (x0 : vec) (n : nat),
+    0 <= b2 -> b2 <= 1 -> Forall (fun v => 0 <= v) (ad_sec (adam_run f grad sq n (adam_init f grad sq b1 b2 e eta x0))).
+Proof. exact adam_second_moment_nonneg. Qed.
+Print Assumptions C10_adam_second_moment_nonneg.
+
+(* Adam::read / write list all members: restoring into ANY instance and continuing = the uninterrupted run *)
+Theorem C10_adam_saverestore_continues :
+  forall (f : vec -> Q) (grad : vec -> vec) (sq : Q -> Q) (fresh s s' : adam_state),
+    adam_restore fresh (adam_save s) = Some s' -> forall n, adam_run f grad sq n s' = adam_run f grad sq n s.
+Proof. exact adam_saverestore_continues. Qed.
+Print Assumptions C10_adam_saverestore_continues.
+
+(* Rprop, all variants (flags), every feasibility predicate: value = f(point), derivative = grad(point) *)
+Theorem C10_rprop_state_consistent :
+  forall (f : vec -> Q) (grad : vec -> vec) (feas : vec -> bool) (huge inc dec dmax dmin : Q) (frz bt ov : bool) (d0 : Q) (x0 : vec) (n : nat),
+    let s := rprop_run f grad feas n (rprop_init f grad huge inc dec dmax dmin frz bt ov d0 x0) in
+    rp_val s = f (rp_pt s) /\ rp_der s = grad (rp_pt s).
+Proof. exact rprop_state_consistent. Qed.
+Print Assumptions C10_rprop_state_consistent.
+
+(* step sizes stay POSITIVE: all variants, every feasibility predicate (exact arithmetic: a double underflows to 0 after
+   ~1075 halvings) *)
+Theorem C10_rprop_delta_positive :
+  forall (f : vec -> Q) (grad : vec -> vec) (feas : vec -> bool) (n : nat) (s : rprop_state),
+    0 < rp_inc s -> 0 < rp_dec s -> 0 < rp_dmax s -> Forall (fun d => 0 < d) (rp_delta s) ->
+    Forall (fun d => 0 < d) (rp_delta (rprop_run f grad feas n s)).
+Proof. exact rprop_delta_positive. Qed.
+Print Assumptions C10_rprop_delta_positive.
+
+(* full statement (false as coded, see C10_ex_rprop_box_delta_below_min_refuted): for every feasibility predicate.
+   Proved: step sizes stay inside [minDelta, maxDelta] on UNCONSTRAINED objectives, all variants *)
+Theorem C10_rprop_delta_range_partial :
+  forall (f : vec -> Q) (grad : vec -> vec) (n : nat) (s : rprop_state),
+    1 <= rp_inc s -> 0 < rp_dec s -> rp_dec s <= 1 -> rp_dmin s <= rp_dmax s -> 0 <= rp_dmin s ->
+    Forall (fun d => rp_dmin s <= d /\ d <= rp_dmax s) (rp_delta s) ->
+    Forall (fun d => rp_dmin s <= d /\ d <= rp_dmax s) (rp_delta (rprop_run f grad (fun _ => true) n s)).
+Proof. exact rprop_delta_range_unconstrained. Qed.
+Print Assumptions C10_rprop_delta_range_partial.
+
+(* iRprop+ (all three flags), unconstrained: after a step that INCREASED the value, every coordinate whose partial
+   derivative changed sign is put back where it was before that step, and the move is not counted as a step *)
+Theorem C10_irprop_plus_undoes_increase :
+  forall (f : vec -> Q) (grad : vec -> vec) (n : nat) (s0 : rprop_state),
+    (forall x, length x = n -> length (grad x) = n) ->
+    rp_frz s0 = true -> rp_bt s0 = true -> rp_ov s0 = true ->
+    length (rp_pt s0) = n -> length (rp_der s0) = n -> length (rp_oldder s0) = n -> length (rp_delta s0) = n -> length (rp_deltaw s0) = n ->
+    let s1 := rprop_step f grad (fun _ => true) s0 in
+    let s2 := rprop_step f grad (fun _ => true) s1 in
+    rp_val s0 < rp_val s1 ->
+    forall i, (i < n)%nat -> nth i (rp_der s1) 0 * nth i (rp_oldder s1) 0 < 0 ->
+    nth i (rp_pt s2) 0 == nth i (rp_pt s0) 0 /\ nth i (rp_deltaw s2) 0 = 0.
+Proof. exact irprop_plus_undoes_increase. Qed.
+Print Assumptions C10_irprop_plus_undoes_increase.
+
+(* AS CODED, the other half of that branch (backtracking + old-value test, sign change, value NOT increased): nothing is
+   assigned to m_deltaw(i), so "point(i) += m_deltaw(i)" repeats the previous step of the coordinate.  Concrete run:
+   C10_ex_irprop_plus_stale_step (values 21, 7, 89 on a convex quadratic; reproduced on the C++ by tools/c10.py) *)
+Theorem C10_rprop_stale_step_as_coded :
+  forall (s : rprop_state) (p g og d dw : Q),
+    rp_bt s = true -> rp_ov s = true -> rp_val s <= rp_oldval s -> g * og < 0 ->
+    c_p (rprop_coord s p g og d dw) == p + dw /\ c_dw (rprop_coord s p g og d dw) = dw.
+Proof. exact coord_stale_step. Qed.
+Print Assumptions C10_rprop_stale_step_as_coded.
+
+(* Rprop::read / write (as repaired by 9fe8fcd6) list all members *)
+Theorem C10_rprop_saverestore_continues :
+  forall (f : vec -> Q) (grad : vec -> vec) (feas : vec -> bool) (fresh s s' : rprop_state),
+    rprop_restore fresh (rprop_save s) = Some s' -> forall n, rprop_run f grad feas n s' = rprop_run f grad feas n s.
+Proof. exact rprop_saverestore_continues. Qed.
+Print Assumptions C10_rprop_saverestore_continues.
+
 (* hypotheses are satisfiable / conclusions are not vacuous *)
 Example C10_ex_quadratic_run : strictly_decreasing (map val exq_trace) = true.
 Proof. exact (proj1 quadratic_iterates_decrease). Qed.
@@ -429,3 +655,53 @@ Example C10_ex_bfgs_runs :
   forallb (fun ty => forallb (fun n => defined (exb_run ty n)) [0; 1; 2; 3]%nat &&
                      strictly_decreasing (map (fun n => opt_val (exb_run ty n)) [0; 1; 2; 3]%nat)) [0; 1; 2]%nat = true.
 Proof. exact bfgs_runs_decrease. Qed.
+(* L-BFGS: reading into an instance with another m_updThres (the member is uninitialised before the first init and is not
+   archived) continues differently: the proviso of C10_lbfgs_saverestore_continues is needed *)
+Example C10_ex_lbfgs_restore_other_threshold_refuted :
+  match lbx_s with
+  | Some s =>
+    match ls_restore lb_model (lb_restore_extra (lb_thres (extra lbx_fresh))) lbx_fresh (ls_save lb_model lb_save_extra s) with
+    | Some s' =>
+      match ls_run_o exq_f exq_grad lb_model lbfgs_dir (fun _ => ex_oracle) 0 2 s',
+            ls_run_o exq_f exq_grad lb_model lbfgs_dir (fun _ => ex_oracle) 0 2 s with
+      | Some a, Some b => negb (Qeq_bool (hd 0 (pt a)) (hd 0 (pt b)))
+      | _, _ => false
+      end
+    | None => false
+    end
+  | None => false
+  end = true.
+Proof. exact lbfgs_restore_other_threshold_refuted. Qed.
+(* L-BFGS with m_numHist = 2, all three line searches: strictly decreasing values over four steps; the history grows to
+   the memory and stays there *)
+Example C10_ex_lbfgs_runs :
+  forallb (fun ty => strictly_decreasing (map (fun n => lb_opt_val (lbx_run ty 2 n)) [0; 1; 2; 3; 4]%nat)) [0; 1; 2]%nat = true /\
+  map (fun n => lb_hist_len (lbx_run 2 2 n)) [0; 1; 2; 3; 4]%nat = [0; 1; 2; 2; 2]%nat.
+Proof. exact lbfgs_runs_decrease. Qed.
+(* box-constrained L-BFGS on a 2-d quadratic in a small box: every iterate feasible; the direction comes from the dog-leg
+   branch (2) twice, then from the Cauchy branch cut at a bound (1), then from the full step (0) *)
+Example C10_ex_lbfgs_box_run :
+  forallb (fun s => box_feasb_slack box_eps lbb_l lbb_u (pt s)) lbb_trace = true /\
+  map lbb_branch lbb_trace = [2; 2; 1; 0]%nat /\ strictly_decreasing (map val (firstn 3 lbb_trace)) = true.
+Proof. exact lbfgs_box_run_example. Qed.
+(* Rprop with box constraints: the infeasible branch multiplies the step size by m_decreaseFactor without the clamp
+   max(minDelta, .): minDelta = maxDelta = 1, start 1/2 in [0, 1], objective -x: after one step the step size is 1/2 < minDelta *)
+Example C10_ex_rprop_box_delta_below_min_refuted :
+  let s := rprop_run (fun x => - hd 0 x) (fun _ => [-1]) rpb_feas 1 rpb_init in
+  rp_dmin s = 1 /\ rp_delta s = [1 # 2] /\ rp_pt s = [1 # 2] /\
+  Forall (fun d => rp_dmin rpb_init <= d /\ d <= rp_dmax rpb_init) (rp_delta rpb_init).
+Proof. exact rprop_box_delta_below_min_refuted. Qed.
+(* default iRprop+ on f = x^2 + 2y^2 - x - y/2 from (4, -2) with initial step size 4: values 21, 7, 89 *)
+Example C10_ex_irprop_plus_stale_step :
+  map (fun n => rp_val (rpx n)) [0; 1; 2; 3]%nat = [21; 7; 89; 36] /\
+  map (fun n => rp_pt (rpx n)) [0; 1; 2; 3]%nat = [[4; -2]; [0; 2]; [-4; 6]; [-2; 4]] /\
+  rp_der (rpx 1) = [-1; 15 # 2] /\ rp_oldder (rpx 1) = [7; - (17 # 2)] /\ rp_deltaw (rpx 1) = [-4; 4] /\ rp_deltaw (rpx 2) = [-4; 4].
+Proof. exact irprop_plus_stale_step_example. Qed.
+(* regression witness of the repair 9fe8fcd6: the earlier Rprop member list (no derivative, no flags) was not complete *)
+Example C10_ex_rprop_old_list_restore_refuted :
+  match rprop_restore_old rpo_fresh (rprop_save_old rpo_s) with
+  | Some s' => negb (Qeq_bool (hd 0 (rp_pt (rprop_run exq_f exq_grad (fun _ => true) 2 s')))
+                              (hd 0 (rp_pt (rprop_run exq_f exq_grad (fun _ => true) 2 rpo_s))))
+  | None => false
+  end = true.
+Proof. exact rprop_old_list_restore_refuted. Qed.
